@@ -544,6 +544,8 @@ func C10(c *hx.Ctx) {
 	gxzStaleTemp(c, bin)
 	// dash-only names, long operand lists (exit status, independence of members)
 	gxzOperandEdgeCases(c, bin)
+	// content rather than faults: what is left after a successful run must decode to the input
+	gxzContentFamily(c, bin, "C10")
 	// Interrupted runs: the handler runs concurrently with the main goroutine, so the order of
 	// their system calls is up to the scheduler. The traces are validated against the same
 	// automaton; a rejection is reported in the evidence but is not a verdict of its own (the
